@@ -11,6 +11,7 @@ Only property theorems and non-vacuity examples live here; helpers are in Proofs
 -/
 import Prs.Proofs.Powerlaw
 import Prs.Proofs.FormulasReal
+import Prs.Proofs.FormulasDownsample
 import Prs.Proofs.StatsSets
 import Mathlib.Data.Nat.Choose.Basic
 
@@ -191,6 +192,33 @@ theorem C17_source_mle_simple_stationary (c : List ℝ) (cmin : ℝ) (hn : 0 < (
       ↔ α = Generated.powerlaw_mle_alpha_simple c cmin := by
   rw [C17_source_mle_simple]
   exact C17_mle_simple_stationary _ _ hn hS α hα
+
+/-! ### `downsample` of one flat collection, as re-translated from pyrepseq/distance.py on this run (NumPy's
+`random.choice(a, m, replace=False)` is a function parameter, assumed to return m elements none more often than in a) -/
+
+/-- the translated body meets the model relation for every collection and every `maxseqs` (a number or None) … -/
+theorem C17_source_downsample {β : Type} [DecidableEq β] (choice : List β → Nat → List β) (hc : ChoiceOk choice)
+    (xs : List β) (m : ℕ) :
+    IsDownsample xs (some m) (Generated.downsample choice xs m) ∧
+      IsDownsample xs none (Generated.downsample_none choice xs) :=
+  ⟨gen_downsample_ok choice hc xs m, gen_downsample_none choice xs⟩
+
+/-- … so its result is the input itself when that has at most `maxseqs` elements (whatever the random source does), and otherwise
+exactly `maxseqs` elements forming a sub-multiset of the input -/
+theorem C17_source_downsample_contract {β : Type} [DecidableEq β] (choice : List β → Nat → List β) (hc : ChoiceOk choice)
+    (xs : List β) (m : ℕ) :
+    (xs.length ≤ m → Generated.downsample choice xs m = xs) ∧
+    (m < xs.length → (Generated.downsample choice xs m).length = m) ∧
+    (Generated.downsample choice xs m).Subperm xs := by
+  refine ⟨gen_downsample_short choice xs m, fun h => ?_, ?_⟩
+  · exact (C17_downsample_size xs _ m h (gen_downsample_ok choice hc xs m)).1
+  · exact C17_downsample_subperm xs _ (some m) (gen_downsample_ok choice hc xs m)
+
+/-- non-vacuity: `List.take` is such a choice function -/
+example : ChoiceOk (fun (l : List ℕ) m => l.take m) := by
+  intro l m h
+  refine ⟨by simp; omega, fun v => ?_⟩
+  exact (List.take_sublist m l).count_le v
 
 /-! ### `method="exact"`: what the optimiser is given (SciPy's `zeta` and `minimize_scalar` are external: `zeta` is a parameter here, the
 optimiser's answer is checked numerically by the correspondence) -/
